@@ -24,6 +24,22 @@ Theorem C04_address_exact : forall it at_ path v,
   v = addr_sem path.
 Proof. exact address_exact. Qed.
 
+(* Release build (wrapping arithmetic): every level's result is the mathematical address modulo
+   2^bits(IT), whatever wrapped on the way ... *)
+Theorem C04_address_chain_release_mod : forall it path base base' v,
+  0 < bits it -> base mod 2 ^ bits it = base' mod 2 ^ bits it ->
+  gen_addr_from Release it base path = Ok v ->
+  v mod 2 ^ bits it = (base' + addr_sem path) mod 2 ^ bits it /\ forallb index_valid path = true.
+Proof. exact gen_addr_from_release. Qed.
+
+(* ... hence the bus address is EXACT whenever the mathematical address fits the address type and the
+   internal type is at least as wide — no hypothesis on the indices or on intermediate overflow. *)
+Theorem C04_address_exact_release : forall it at_ path v,
+  0 < bits at_ -> bits at_ <= bits it ->
+  gen_addr Release it at_ path = Ok v -> in_range at_ (addr_sem path) = true ->
+  v = addr_sem path /\ forallb index_valid path = true.
+Proof. exact address_exact_release. Qed.
+
 (* An index >= the repeat count panics in that accessor (assert!) in both build profiles, before any
    arithmetic; nothing below it is evaluated, so no operation object exists and the interface is
    never touched. *)
@@ -129,6 +145,8 @@ Proof. vm_compute. repeat split. Qed.
 
 Print Assumptions C04_address_chain_exact.
 Print Assumptions C04_address_exact.
+Print Assumptions C04_address_chain_release_mod.
+Print Assumptions C04_address_exact_release.
 Print Assumptions C04_index_guard.
 Print Assumptions C04_index_guard_chain.
 Print Assumptions C04_ref_address.
